@@ -147,7 +147,8 @@ func C12Sequence() {
 	for i := 0; i < 3; i++ {
 		action := uint32(sym.Choose("action", 2)) // registerEvent / unregisterEvent
 		uid := sym.U64("user")
-		v.hostile.inject(zzFrame(net.Call, v.sid, 1, action, uint32(60+i), zzRegisterPayload(1, 0x60, uid)))
+		signal := uint32(0x60 + sym.Choose("signal", 2))
+		v.hostile.inject(zzFrame(net.Call, v.sid, 1, action, uint32(60+i), zzRegisterPayload(1, signal, uid)))
 		sym.Quiesce()
 	}
 	v.probe("after-hostile-sequence")
@@ -165,4 +166,37 @@ func C12Flood() {
 	sym.Quiesce()
 	v.probe("after-flood")
 	sym.Reach("flood-done")
+}
+
+// C12FloodTerminate: a pipelined flood addressed to a sub-object whose method is slow, so that its
+// mailbox fills up, with that sub-object's terminate queued behind the slow call: the sub-object may
+// go away (that is what terminate is for) but the service keeps answering everybody else.
+func C12FloodTerminate() {
+	v := newZZVictim(0)
+	sub := newZZObj()
+	sub.gate = make(chan struct{})
+	s := v.srv.(*server)
+	s.Router.RLock()
+	svc := s.Router.services[v.sid]
+	s.Router.RUnlock()
+	id, err := svc.Add(sub.front)
+	sym.Assert(err == nil, "sub-object-added")
+	// 1. a call that keeps the sub-object busy
+	v.hostile.inject(zzFrame(net.Call, v.sid, id, 1000, 100, nil))
+	sym.Quiesce()
+	// 2. terminate + enough calls to fill the sub-object's mailbox (10 slots) and block the connection on it
+	v.hostile.inject(zzFrame(net.Call, v.sid, id, 3, 101, zzLE32(id)))
+	for i := 0; i < 10; i++ {
+		v.hostile.inject(zzFrame(net.Call, v.sid, id, 1000, uint32(110+i), nil))
+	}
+	sym.Quiesce()
+	// 3. a few more behind them
+	for i := 0; i < 2; i++ {
+		v.hostile.inject(zzFrame(net.Call, v.sid, id, 1000, uint32(130+i), nil))
+	}
+	// 4. the slow call finishes
+	close(sub.gate)
+	sym.Quiesce()
+	v.probe("after-flood-with-terminate")
+	sym.Reach("flood-terminate-done")
 }
